@@ -177,8 +177,30 @@ fn check(c: &mut Case, name: &str, raw: &Content) {
     if content.entries.len() >= 2 && content.entries.iter().any(|(_, v)| !v.is_ascii()) {
         c.nontrivial(content.fp());
     }
-    if let Some(t) = build(c, raw) {
+    if content.entries.iter().any(|(k, v)| sjis_encode(k).map(|b| b.len() >= 1024).unwrap_or(false) || (!content.unicode && sjis_encode(v).map(|b| b.len() >= 1024).unwrap_or(false)))
+        || (content.unicode && sjis_encode(&content.title).map(|b| b.len() >= 1024).unwrap_or(false))
+    {
+        c.sit("long_shift_jis_string");
+    }
+    if let Some(mut t) = build(c, raw) {
         check_roundtrip(c, name, &t, &content);
+        // the same object, edited after it has been serialized once, serialized again
+        if content.entries.len() >= 3 {
+            c.sit("same_object_serialized_edited_serialized");
+            let mut c3 = content.clone();
+            let mut r3 = c.rng.clone();
+            let i = r3.below(c3.entries.len() - 2); // not among the last two
+            let (k, _) = c3.entries.remove(i);
+            t.delete_message(&k);
+            if r3.bool() {
+                let j = r3.below(c3.entries.len());
+                c3.entries[j].1 = "edited after first serialize".to_string();
+                let kk = c3.entries[j].0.clone();
+                t.set_message(&kk, "edited after first serialize");
+            }
+            check_roundtrip(c, "serialized, edited, serialized again (same object)", &t, &c3);
+            return;
+        }
         // second generation: an archive obtained by parsing, then edited, must round-trip too
         if cfg!(miri) && content.unicode {
             return;
@@ -260,6 +282,23 @@ pub fn gen(rng: &mut Rng, quick: bool) -> Content {
         let k0 = entries[0].0.clone();
         entries[1].1 = k0;
     }
+    let mut title = title;
+    if !cfg!(miri) && rng.chance(1, 12) {
+        // a Shift-JIS string longer than 1 KiB, two-byte characters at every alignment
+        let len = rng.range(520, 1400);
+        let lead = rng.range(0, 3);
+        let mut s: String = "x".repeat(lead);
+        for _ in 0..len {
+            let cp = if rng.chance(1, 9) { rng.range(0x41, 0x5a) as u32 } else { rng.range(0x3041, 0x3093) as u32 };
+            s.push(char::from_u32(cp).unwrap());
+        }
+        if unicode || entries.is_empty() {
+            title = s;
+        } else {
+            let i = rng.below(entries.len());
+            entries[i].1 = s;
+        }
+    }
     if n >= 1 && rng.chance(1, 6) {
         let l = entries.len() - 1;
         entries[l].1 = String::new();
@@ -277,6 +316,9 @@ pub const REQUIRED: &[&str] = &[
     "every_bmp_scalar",
     "parsed_then_set_title",
     "parsed_then_delete",
+    "poisoned_by_failing_calls_first",
+    "long_shift_jis_string",
+    "same_object_serialized_edited_serialized",
 ];
 
 pub fn run(cx: &mut Ctx) {
@@ -353,6 +395,7 @@ pub fn run(cx: &mut Ctx) {
     let quick = cx.a.quick();
     for _ in 0..n {
         cx.case("random", |c| {
+            super::poison::maybe(c, 7);
             let mut rng = c.rng.clone();
             let content = gen(&mut rng, quick);
             debug_assert!(content.unicode || content.entries.iter().all(|(_, v)| sjis_encode(v).is_some()));
